@@ -7,6 +7,8 @@ _LISTED = None
 
 PRED = {
     'cbz-scale': lambda res, case: res.row == 'CBZ_T1',
+    'bfi-source-bits': lambda res, case: res.row in ('BFI_A1', 'BFI_T1'),
+    'mrs-app-view': lambda res, case: res.row in ('MRS_A1_app', 'MRS_T1_app') and (case['state']['cpsr'] & 31) != 0b10000,
     'push-t2-unaligned': lambda res, case: res.row == 'PUSH_T2',
 }
 
